@@ -274,8 +274,8 @@ PROPS["C34"] = {
     "explanation": "One update step from ANY updater state (all fields symbolic, so every history is covered): a skipped height is "
                    "rejected with the state bit-identical; the execution price keeps its floor and per-block rate; the DA price keeps "
                    "its floor, ceiling and per-block rate; activity stays in range; DA record updates keep the same DA bounds.",
-    "bounds": "one step; all u64/u128/i128/u16 field values; block capacity fixed to 30,000,000 in the quick tier (the fullness "
-              "division only selects the direction); gas price factor 1 and 100; DA record: <= 2 recorded heights, recorded bytes 0 / 1000",
+    "bounds": "one step; all u64/u128/i128/u16 field values; any block capacity for the execution step, capacity fixed to 30,000,000 for the "
+              "activity step and the whole L2 update (the fullness division only selects the direction); gas price factor 1 and 100; DA record: <= 2 recorded heights, recorded bytes 0 / 1000",
     "outside": "in the step harnesses da_change is replaced by its contract |change| <= price*percent/100; the contract itself is decided "
                "on the real function for gas_price_factor = 1 only (c34_da_change_f1, ~10 min: 128-bit saturating multiply); "
                "the values of the P/D terms and of the reward/cost bookkeeping (cut to arbitrary values, so the bounds hold for any), "
@@ -283,13 +283,14 @@ PROPS["C34"] = {
     "assumptions": ["gas_price_factor != 0 (NonZeroU64)", "chain_activity <= max_activity (established by L2ActivityTracker::new)"],
     "harnesses": [
         H("c34_skipped_height", [_AU + "update_l2_block_data"], "any updater, any height != next", timeout={"quick": 1200, "thorough": 3600}),
-        H("c34_exec_step_cap30m", [_AU + "update_exec_gas_price", _AU + "exec_change", _AU + "min_scaled_exec_gas_price"], "any updater, any used gas, capacity 30,000,000", timeout={"quick": 1800, "thorough": 3600}),
+        H("c34_exec_step_anycap", [_AU + "update_exec_gas_price", _AU + "exec_change", _AU + "min_scaled_exec_gas_price"], "any updater, any used gas, any block capacity", timeout={"quick": 1800, "thorough": 3600}),
         H("c34_da_step_f1", [_AU + "update_da_gas_price", _AU + "da_change_accounting_for_activity", _AU + "max_change", _AU + "min_scaled_da_gas_price", _AU + "max_scaled_da_gas_price"], "any updater, factor 1", cuts=_C34_CUTS, timeout={"quick": 1200, "thorough": 3600}),
         H("c34_da_step_f100", [_AU + "update_da_gas_price"], "any updater, factor 100", cuts=_C34_CUTS, timeout={"quick": 1200, "thorough": 3600}),
         H("c34_activity_cap30m", [_AU + "update_activity", "L2ActivityTracker::update", _AU + "da_change_accounting_for_activity"], "any updater, capacity 30,000,000", timeout={"quick": 1200, "thorough": 3600}),
         H("c34_da_record_f1_b1000", [_AU + "update_da_record_data", _AU + "da_block_update", _AU + "update_unrecorded_block_bytes"], "<= 2 heights, 1000 recorded bytes", cuts=_C34_CUTS, timeout={"quick": 1800, "thorough": 3600}),
         H("c34_da_record_f100_b0", [_AU + "update_da_record_data"], "<= 2 heights, 0 recorded bytes", cuts=_C34_CUTS, timeout={"quick": 1800, "thorough": 3600}),
         H("c34_da_change_f1", [_AU + "da_change", _AU + "max_change"], "any updater with factor 1, any i128 P and D terms (the real clamp, no cut)", timeout={"quick": 2400, "thorough": 5400}, mem_gb=16),
+        H("c34_activity_anycap", [_AU + "update_activity", "L2ActivityTracker::update"], "any updater, any block capacity", tiers=("thorough",), timeout={"thorough": 5400}, mem_gb=16),
         H("c34_l2_update_f1", [_AU + "update_l2_block_data"], "any updater, next height, capacity 30,000,000, factor 1", cuts=_C34_CUTS, tiers=("thorough",), timeout={"thorough": 7200}),
     ],
 }
